@@ -127,6 +127,21 @@ JUNK = ["?", "Q", "ZZ", "0", "1", "-", "N/A", "NONE", "high", "Not Defined", "XX
         "\x1b[A", "\x1b[D", "\x1bOH", "\x7f", "\x0c"]
 
 
+# lengths at which a bounded read, a line buffer or a length cap changes behaviour (with and without the newline counted)
+JUNK_LENGTHS = sorted(set(n + d for k in range(4, 14) for n in (2 ** k,) for d in (-2, -1, 0, 1)) | set((80, 79, 81, 100, 1000, 1001, 72, 120)))
+
+
+def long_junk(rng, n=None):
+    """An answer of exactly n characters that is legal for no metric of any version (a pasted hash, a line of dashes...)."""
+    n = n or rng.choice(JUNK_LENGTHS)
+    unit = rng.choice(("0123456789abcdef", "z", "-", "N ", "na", "Q:Z/"))
+    return (unit * (n // len(unit) + 1))[:n - 1] + "#"
+
+
+def junk(rng):
+    return long_junk(rng) if rng.random() < 0.1 else rng.choice(JUNK)
+
+
 _order_cache = {}
 
 
@@ -261,7 +276,7 @@ def script_for(order, target, rng=None, noise=0.0, case="asis", ver=None):
             if ver is not None and T.ND[ver] not in T.VALUES[ver][m] and rng.random() < 0.3:
                 answers.append("")
             else:
-                answers.append(rng.choice(JUNK))
+                answers.append(junk(rng))
         if case == "lower":
             v = v.lower()
         elif case == "upper":
